@@ -46,6 +46,7 @@ class Ctx:
         self.t0 = time.time()
         self.repo = Repo(repo_root or REPO_ROOT, overlay=overlay)
         self.findings: List[Finding] = []
+        self.floor_errors: List[str] = []
         self.obligations = 0
         self.discharged = 0
         self.rule_instances: Dict[str, int] = {}
@@ -78,9 +79,16 @@ class Ctx:
         self.findings.append(Finding(self.prop, rule, construct, key, message, where, detail))
 
     def floor(self, rule: str, n: int, floor: int, what: str):
+        """fewer instances than were confirmed by hand: the rule would pass vacuously.  Deferred to the end of the
+        check: when other rules report a violation of the same tree that verdict stands (exit 1) and the shortfall is
+        printed with it; with no violation the run is analysis-broken (exit 2), never a silent pass"""
         if n < floor:
-            raise AnalysisError('%s: only %d %s found, %d confirmed by hand on the reference tree - '
-                                'the rule would pass vacuously' % (rule, n, what, floor))
+            self.floor_errors.append('%s: only %d %s found, %d confirmed by hand on the reference tree - '
+                                     'the rule would pass vacuously' % (rule, n, what, floor))
+
+    def raise_deferred(self, have_violations: bool):
+        if self.floor_errors and not have_violations:
+            raise AnalysisError('; '.join(self.floor_errors))
 
     def touch(self, f: FuncInfo, primary: bool = False):
         self.consulted.add(f.module.relpath)
@@ -170,6 +178,9 @@ class Ctx:
                 print('KNOWN-FINDING: property=%s %s [%s %s]' % (self.prop, fd.message, fd.rule, fd.construct))
             else:
                 new.append(fd)
+        self.raise_deferred(bool(new))
+        for msg in self.floor_errors:
+            print('NOTE property=%s (instance count below the confirmed floor, reported together with the violations) %s' % (self.prop, msg))
         replay_dir = os.path.join(EVID_DIR, 'replay')
         os.makedirs(replay_dir, exist_ok=True)
         # remove stale replay files of this property
